@@ -119,9 +119,8 @@ def _basestate(repo, col):
         raise AnalysisError(f"only {n} guarded updates of base registries found")
 
 
-def _named(repo, col):
+def _named(repo, col, R="R-C11-filter"):
     """Selection by group / channel name / synapse type name, and the tables a View shows."""
-    R = "R-C11-filter"
     fi = repo.method("Module", "__getattr__")
     ex = idx.expander(repo, fi)
     # the views handed out for a group name / channel name / synapse-type name, searched in everything __getattr__ can return
